@@ -16,7 +16,8 @@ RULE = ("(a) R3 documents: every location of the real AST must equal the positio
         "source at the location gives back keyword / tag / raw cell / delimiter; (c) error locations: the W4 simulator "
         "predicts line and column of every error of noisy documents, G8 checks message prefix == location, column of the "
         "first non-blank character, EOF one line past the last; bad-corpus locations vs golden files; (d) rows over the "
-        "splitter's character classes parsed as tables, cell columns vs the reference splitter R6.  Distinct = source hash.")
+        "splitter's character classes parsed as tables, cell columns vs the reference splitter R6.  Distinct = source hash."
+        " Also: the reused-objects, boundary and threshold families of C03; a TokenScanner object parsed twice must give the empty document or exact locations again.")
 ASSUMPTIONS = doccheck and [
     "renderer positions are recorded while the text is built (not re-derived by parsing)",
     "columns are counted in code points of the physical line; lines end at LF only",
